@@ -161,6 +161,9 @@ Section Proofs.
   Lemma live_false e : live e = false <-> ekey e = invalid.
   Proof. unfold live. destruct (N.eqb_spec (ekey e) invalid); simpl; split; congruence. Qed.
 
+  Lemma live_set_invalid e : live (set_key e invalid) = false.
+  Proof. apply live_false. reflexivity. Qed.
+
   Lemma occ_or_emp cs x : x < len cs -> occ cs x \/ emp cs x.
   Proof.
     intros H. destruct (get_lt_some cs x H) as [e He].
@@ -504,5 +507,260 @@ Section Proofs.
     - pose proof (dist_lt (2 ^ e) (ideal_of e (ekey en)) q (ideal_of_lt _ _) Hqb). unfold len in Hl. lia.
     - intros x Hx. destruct (Hall x Hx) as (g' & Hg' & Lg'). exists g'. repeat split; auto.
       intros K. apply Hn. apply in_keys. eauto.
+  Qed.
+
+  (* ---------------------------------------------------------------- H. Double *)
+  Lemma contents_zeros n : contents (repeat (invalid, v0) n) = [].
+  Proof. induction n as [|n IH]; simpl; auto. Qed.
+
+  Lemma contents_app a b : contents (a ++ b) = contents a ++ contents b.
+  Proof. apply filter_app. Qed.
+
+  (* phase 1: the parking loop *)
+  Lemma park_loop_spec : forall n cs i rolled, i + N.of_nat n <= len cs ->
+    exists p cs' rolled', park_loop V n cs i rolled = Ok (cs', rolled') /\
+      i <= p <= i + N.of_nat n /\ len cs' = len cs /\
+      (forall x, i <= x < p -> occ cs x /\ emp cs' x) /\
+      (forall x, ~ (i <= x < p) -> get cs' x = get cs x) /\
+      (p < i + N.of_nat n -> emp cs p) /\
+      Permutation (contents cs' ++ rolled') (contents cs ++ rolled).
+  Proof.
+    induction n as [|n IH]; intros cs i rolled Hn.
+    - exists i, cs, rolled. simpl. repeat split; auto; try lia.
+    - simpl. destruct (get_lt_some cs i) as [en Hen]; [lia|]. rewrite Hen.
+      destruct (N.eqb_spec (ekey en) invalid) as [K|K].
+      + exists i, cs, rolled. repeat split; auto; try lia.
+        intros _. exists en. split; auto. now apply live_false.
+      + assert (L : live en = true) by now apply live_true.
+        assert (Hi : i < len cs) by lia.
+        destruct (IH (upd cs i (set_key en invalid)) (i + 1) (rolled ++ [en])) as (p & cs' & r' & Hrun & Hp & Hl & Hin & Hout & Hstop & HP).
+        { rewrite len_upd. lia. }
+        exists p, cs', r'. rewrite len_upd in Hl.
+        split; [exact Hrun|]. split; [lia|]. split; [exact Hl|]. split; [|split; [|split]].
+        * intros x Hx. destruct (N.eq_dec x i) as [->|Ne].
+          -- split; [exists en; auto|]. unfold emp. rewrite Hout by lia. rewrite get_upd_eq by auto.
+             exists (set_key en invalid). split; auto; apply live_false; reflexivity.
+          -- destruct (Hin x) as [Ho He]; [lia|]. split; auto. apply occ_upd_other in Ho; auto.
+        * intros x Hx. destruct (N.eq_dec x i) as [->|Ne].
+          -- exfalso. apply Hx. lia.
+          -- rewrite Hout by lia. apply get_upd_neq; auto.
+        * intros Hlt. assert (Hpe : emp (upd cs i (set_key en invalid)) p) by (apply Hstop; lia).
+          apply emp_upd_other in Hpe; auto. lia.
+        * rewrite HP. rewrite app_assoc.
+          transitivity (en :: contents (upd cs i (set_key en invalid)) ++ rolled).
+          -- symmetry. apply Permutation_cons_append.
+          -- change (en :: contents (upd cs i (set_key en invalid)) ++ rolled)
+               with ((en :: contents (upd cs i (set_key en invalid))) ++ rolled).
+             apply Permutation_app_tail. apply contents_vacate; auto.
+  Qed.
+
+  (* invariant of the re-insertion loop: j = next index to process, 2^e = old bucket count *)
+  Record DInv (e : N) (oc : list entry) cs (j : N) (pend : list entry) : Prop := mkDInv {
+    d_len : len cs = 2 ^ (e + 1);
+    d_new : forall q en, get cs q = Some en -> live en = true -> (q < j \/ 2 ^ e <= q) ->
+            ideal_of (e + 1) (ekey en) <= q /\ (2 ^ e <= q -> 2 ^ e <= ideal_of (e + 1) (ekey en)) /\
+            forall x, ideal_of (e + 1) (ekey en) <= x <= q -> occ cs x;
+    d_upper : forall q, occ cs q -> 2 ^ e <= q -> q < j + 2 ^ e;
+    d_old : forall q en, get cs q = Some en -> live en = true -> j <= q < 2 ^ e -> ideal_of e (ekey en) <= q;
+    d_perm : Permutation (contents cs ++ pend) oc }.
+
+  Lemma pow2_succ e : 2 ^ (e + 1) = 2 * 2 ^ e.
+  Proof. rewrite N.pow_add_r. simpl (2 ^ 1). lia. Qed.
+
+  Lemma reinsert_step e oc cs j pend : DInv e oc cs j pend -> j < 2 ^ e ->
+    forall en, get cs j = Some en ->
+      (live en = false -> DInv e oc cs (j + 1) pend) /\
+      (live en = true -> exists q,
+         unchecked_insert V hash (upd cs j (set_key en invalid)) (2 ^ (e + 1) - 1) en
+           = Ok (upd (upd cs j (set_key en invalid)) q en, q) /\
+         DInv e oc (upd (upd cs j (set_key en invalid)) q en) (j + 1) pend).
+  Proof.
+    intros HD Hj en Hen. pose proof (pow2_pos e) as HB. pose proof (pow2_succ e) as H2B.
+    pose proof (d_len _ _ _ _ _ HD) as Hl.
+    split.
+    - intros L. constructor.
+      + exact Hl.
+      + intros q en' Hq L' Hr. apply (d_new _ _ _ _ _ HD q en' Hq L').
+        destruct (N.eq_dec q j) as [->|Ne]; [congruence|lia].
+      + intros q Ho Hq. pose proof (d_upper _ _ _ _ _ HD q Ho Hq). lia.
+      + intros q en' Hq L' Hr. apply (d_old _ _ _ _ _ HD q en' Hq L'). lia.
+      + apply HD.
+    - intros L.
+      set (csv := upd cs j (set_key en invalid)).
+      assert (Hlv : len csv = 2 ^ (e + 1)) by (unfold csv; rewrite len_upd; exact Hl).
+      assert (Hjlen : j < len cs) by lia.
+      set (k := ekey en).
+      pose proof (d_old _ _ _ _ _ HD j en Hen L ltac:(lia)) as Hi0. fold k in Hi0.
+      pose proof (ideal_of_lt (e + 1) k) as Hi'lt.
+      assert (Hvac : get csv j = Some (set_key en invalid)) by (unfold csv; apply get_upd_eq; auto).
+      (* the free bucket that bounds the probe *)
+      assert (Hhi : exists hi, emp csv hi /\ ideal_of (e + 1) k <= hi /\ hi <= j + 2 ^ e /\
+                               (ideal_of (e + 1) k < 2 ^ e -> hi = j) /\ (2 ^ e <= ideal_of (e + 1) k -> 2 ^ e <= hi)).
+      { assert (E : ideal_of (e + 1) k = ideal_of e k \/ ideal_of (e + 1) k = ideal_of e k + 2 ^ e).
+        { unfold ideal_of. rewrite H2B. apply mod_double; auto. }
+        pose proof (ideal_of_lt e k) as Hi0lt.
+        destruct E as [E|E].
+        - exists j.
+          split; [exists (set_key en invalid); split; auto; apply live_false; reflexivity|].
+          repeat split; lia.
+        - exists (j + 2 ^ e). split; [|repeat split; lia].
+          destruct (occ_or_emp csv (j + 2 ^ e)) as [Ho|He]; [lia| |exact He].
+          unfold csv in Ho. apply occ_upd_other in Ho; [|lia].
+          pose proof (d_upper _ _ _ _ _ HD (j + 2 ^ e) Ho). lia. }
+      destruct Hhi as (hi & Hemp & Hlo & Hhi & Hlow & Hup).
+      destruct (first_empty csv (2 ^ (e + 1)) Hlv (ideal_of (e + 1) k) Hi'lt (ex_intro _ hi Hemp)) as (q & Hq & Hall).
+      assert (Hqb : q < 2 ^ (e + 1)) by (rewrite <- Hlv; eapply emp_lt; eauto).
+      assert (Hqr : ideal_of (e + 1) k <= q <= hi).
+      { assert (Hnb : ~ between (2 ^ (e + 1)) (ideal_of (e + 1) k) q hi).
+        { intros Hb. eapply occ_emp_excl; eauto. }
+        unfold between in Hnb. lia. }
+      exists q. split.
+      { unfold unchecked_insert. rewrite ideal_mask. fold k. fold csv.
+        apply (ui_loop_walk csv (2 ^ (e + 1)) Hlv (2 ^ (e + 1) - 1) (next_mask (e + 1))); auto.
+        pose proof (dist_lt (2 ^ (e + 1)) (ideal_of (e + 1) k) q Hi'lt Hqb). unfold len in Hlv. lia. }
+      fold csv.
+      assert (Hqlen : q < len csv) by lia.
+      assert (Hqj : ideal_of (e + 1) k < 2 ^ e -> q <= j) by (intros H; specialize (Hlow H); lia).
+      assert (Hqu : 2 ^ e <= ideal_of (e + 1) k -> 2 ^ e <= q) by lia.
+      destruct Hq as (g & Hg & Lg).
+      constructor.
+      + rewrite len_upd. exact Hlv.
+      + intros q' en' Hq' L' Hr. destruct (N.eq_dec q q') as [<-|Ne].
+        * rewrite get_upd_eq in Hq' by auto. injection Hq' as <-. fold k.
+          split; [lia|]. split; [lia|].
+          intros x Hx. destruct (N.eq_dec x q) as [->|Nx].
+          -- exists en. split; auto. apply get_upd_eq; auto.
+          -- apply occ_upd_live; auto. apply Hall. unfold between. lia.
+        * rewrite get_upd_neq in Hq' by auto.
+          assert (Nj : q' <> j).
+          { intros ->. rewrite Hvac in Hq'. injection Hq' as <-. rewrite live_set_invalid in L'. discriminate. }
+          unfold csv in Hq'. rewrite get_upd_neq in Hq' by auto.
+          destruct (d_new _ _ _ _ _ HD q' en' Hq' L' ltac:(lia)) as (A1 & A2 & A3).
+          split; auto. split; auto. intros x Hx.
+          apply occ_upd_live; auto. unfold csv. apply occ_upd_other; [|apply A3; auto]. lia.
+      + intros q' Ho Hq'. destruct (N.eq_dec q q') as [<-|Ne]; [lia|].
+        apply occ_upd_other in Ho; auto. unfold csv in Ho. apply occ_upd_other in Ho; [|lia].
+        pose proof (d_upper _ _ _ _ _ HD q' Ho Hq'). lia.
+      + intros q' en' Hq' L' Hr.
+        assert (Ne : q <> q').
+        { destruct (N.lt_ge_cases (ideal_of (e + 1) k) (2 ^ e)) as [H|H]; [specialize (Hqj H)|specialize (Hqu H)]; lia. }
+        rewrite get_upd_neq in Hq' by auto. unfold csv in Hq'. rewrite get_upd_neq in Hq' by lia.
+        apply (d_old _ _ _ _ _ HD q' en' Hq' L'). lia.
+      + rewrite (contents_fill csv q g en Hg Lg L).
+        change ((en :: contents csv) ++ pend) with (en :: contents csv ++ pend).
+        unfold csv. rewrite <- (d_perm _ _ _ _ _ HD).
+        rewrite <- (contents_vacate cs j en Hen L). reflexivity.
+  Qed.
+
+  Lemma reinsert_loop_spec e oc pend : forall n cs j, DInv e oc cs j pend -> j + N.of_nat n <= 2 ^ e ->
+    exists cs', reinsert_loop V hash n cs (2 ^ (e + 1) - 1) j = Ok cs' /\ DInv e oc cs' (j + N.of_nat n) pend.
+  Proof.
+    induction n as [|n IH]; intros cs j HD Hn.
+    - exists cs. simpl. split; auto. rewrite N.add_0_r. exact HD.
+    - cbn [reinsert_loop]. pose proof (pow2_succ e) as H2B.
+      destruct (get_lt_some cs j) as [en Hen]; [rewrite (d_len _ _ _ _ _ HD); lia|]. rewrite Hen.
+      destruct (reinsert_step e oc cs j pend HD ltac:(lia) en Hen) as [Hdead Hlive].
+      replace (j + N.of_nat (S n)) with (j + 1 + N.of_nat n) by lia.
+      destruct (N.eqb_spec (ekey en) invalid) as [K|K].
+      + apply IH; [|lia]. apply Hdead. now apply live_false.
+      + destruct (Hlive ltac:(now apply live_true)) as (q & Hins & HD').
+        rewrite Hins. cbn [bind fst]. apply IH; [exact HD'|lia].
+  Qed.
+
+  Lemma NoDup_app_l {A} (a b : list A) : NoDup (a ++ b) -> NoDup a.
+  Proof. induction a as [|h t IH]; simpl; intros H; [constructor|]. inversion H; subst. constructor; auto. intros Hin. apply H2. apply in_or_app. auto. Qed.
+
+  (* phase 3: parked entries are ordinary insertions into a valid table *)
+  Lemma unpark_loop_spec e : forall pend cs, Valid cs e -> NoDup (keys cs ++ map ekey pend) ->
+    (forall x, In x pend -> live x = true) ->
+    N.of_nat (length (contents cs) + length pend) < 2 ^ e ->
+    exists cs', unpark_loop V hash pend cs (2 ^ e - 1) = Ok cs' /\ Valid cs' e /\
+                Permutation (contents cs') (contents cs ++ pend).
+  Proof.
+    induction pend as [|en pend IH]; intros cs Hv ND Hlive Hroom.
+    - exists cs. simpl. rewrite app_nil_r. auto.
+    - simpl in *.
+      assert (Hn : ~ In (ekey en) (keys cs)).
+      { intros Hin. apply NoDup_remove_2 in ND. apply ND. apply in_or_app. auto. }
+      destruct (unchecked_insert_absent cs e en Hv (Hlive en (or_introl eq_refl)) Hn ltac:(lia)) as (q & Hins & _ & Hv' & HP).
+      rewrite Hins. simpl.
+      destruct (IH (upd cs q en)) as (cs' & Hrun & Hv'' & HP'); auto.
+      + pose proof (perm_keys cs (upd cs q en) [en] HP) as HK. simpl in HK.
+        apply (Permutation_NoDup (l := ekey en :: keys cs ++ map ekey pend)).
+        * rewrite HK. reflexivity.
+        * apply (Permutation_NoDup (l := keys cs ++ ekey en :: map ekey pend)); auto.
+          symmetry. apply Permutation_middle.
+      + apply Permutation_length in HP. rewrite HP. simpl. lia.
+      + exists cs'. split; auto. split; auto. rewrite HP'. rewrite HP.
+        simpl. apply Permutation_middle.
+  Qed.
+
+  Theorem double_correct (t : ptable) e : Valid (cells t) e -> Geom t e ->
+    exists t', double V v0 hash t = Ok t' /\ Valid (cells t') (e + 1) /\ Geom t' (e + 1) /\
+               entries t' = entries t /\ Permutation (contents (cells t')) (contents (cells t)).
+  Proof.
+    intros Hv [Hnb Hm]. pose proof (pow2_pos e) as HB. pose proof (pow2_succ e) as H2B.
+    pose proof (v_len _ _ Hv) as Hl.
+    unfold double. rewrite Hnb, Hm, mask_double_spec. unfold grow_factor.
+    replace (N.to_nat (2 ^ e * 2 - 2 ^ e)) with (N.to_nat (2 ^ e)) by lia.
+    set (cs0 := cells t ++ repeat (invalid, v0) (N.to_nat (2 ^ e))).
+    assert (Hl0 : len cs0 = 2 ^ (e + 1)).
+    { unfold cs0. rewrite len_app, len_repeat, Hl. lia. }
+    destruct (park_loop_spec (N.to_nat (2 ^ e)) cs0 0 []) as (p & cs1 & rolled & Hpark & Hp & Hl1 & Hin & Hout & Hstop & HP1).
+    { lia. }
+    rewrite Hpark. cbn [bind fst snd].
+    assert (Hzero : forall x, 2 ^ e <= x -> x < 2 ^ (e + 1) -> get cs0 x = Some (invalid, v0)).
+    { intros x H1 H2. unfold cs0. rewrite get_app_r by lia. apply get_repeat. lia. }
+    assert (Hlow : forall x, x < 2 ^ e -> get cs0 x = get (cells t) x).
+    { intros x H1. unfold cs0. apply get_app_l. lia. }
+    assert (Hc0 : contents cs0 = contents (cells t)).
+    { unfold cs0. rewrite contents_app, contents_zeros. apply app_nil_r. }
+    assert (HD0 : DInv e (contents (cells t)) cs1 0 rolled).
+    { constructor.
+      - lia.
+      - intros q en Hq L Hr. exfalso. destruct Hr as [Hr|Hr]; [lia|].
+        assert (q < 2 ^ (e + 1)) by (rewrite <- Hl0, <- Hl1; eapply get_some_lt; eauto).
+        rewrite Hout in Hq by lia. rewrite Hzero in Hq by lia. injection Hq as <-. discriminate L.
+      - intros q (en & Hq & L) Hr. exfalso.
+        assert (q < 2 ^ (e + 1)) by (rewrite <- Hl0, <- Hl1; eapply get_some_lt; eauto).
+        rewrite Hout in Hq by lia. rewrite Hzero in Hq by lia. injection Hq as <-. discriminate L.
+      - intros q en Hq L Hr.
+        assert (Hqp : ~ (0 <= q < p)).
+        { intros Hc. destruct (Hin q Hc) as [_ He]. eapply occ_emp_excl; eauto. exists en; auto. }
+        rewrite Hout in Hq by auto. rewrite Hlow in Hq by lia.
+        assert (Hpe : emp (cells t) p).
+        { destruct Hstop as (g & Hg & Lg); [lia|]. rewrite Hlow in Hg by lia. exists g; auto. }
+        assert (Hne : q <> p) by (intros ->; eapply occ_emp_excl; eauto; exists en; auto).
+        destruct (N.le_gt_cases (ideal_of e (ekey en)) q) as [|Hgt]; auto. exfalso.
+        apply (occ_emp_excl (cells t) p); auto.
+        apply (v_path _ _ Hv q en Hq L). unfold between. lia.
+      - rewrite HP1, app_nil_r. rewrite Hc0. reflexivity. }
+    destruct (reinsert_loop_spec e (contents (cells t)) rolled (N.to_nat (2 ^ e)) cs1 0 HD0 ltac:(lia)) as (cs2 & Hre & HD2).
+    rewrite Hre. cbn [bind].
+    replace (0 + N.of_nat (N.to_nat (2 ^ e))) with (2 ^ e) in HD2 by lia.
+    pose proof (d_perm _ _ _ _ _ HD2) as HP2.
+    assert (HND : NoDup (keys cs2 ++ map ekey rolled)).
+    { unfold keys. rewrite <- map_app. apply (Permutation_NoDup (l := keys (cells t))); [|apply Hv].
+      unfold keys. apply Permutation_map. symmetry. exact HP2. }
+    assert (Hlen2 : (length (contents cs2) + length rolled = length (contents (cells t)))%nat).
+    { apply Permutation_length in HP2. rewrite app_length in HP2. exact HP2. }
+    assert (Hv2 : Valid cs2 (e + 1)).
+    { constructor.
+      - apply HD2.
+      - eapply NoDup_app_l; eauto.
+      - intros q en Hq L x Hx.
+        assert (q < 2 ^ (e + 1)) by (rewrite <- (d_len _ _ _ _ _ HD2); eapply get_some_lt; eauto).
+        destruct (d_new _ _ _ _ _ HD2 q en Hq L ltac:(lia)) as (A1 & _ & A3).
+        apply A3. unfold between in Hx. lia.
+      - pose proof (v_room _ _ Hv). lia. }
+    destruct (unpark_loop_spec (e + 1) rolled cs2 Hv2 HND) as (cs3 & Hun & Hv3 & HP3).
+    { intros x Hx. assert (Hi : In x (contents (cells t))).
+      { eapply Permutation_in; [exact HP2|]. apply in_or_app. auto. }
+      apply filter_In in Hi. apply Hi. }
+    { pose proof (v_room _ _ Hv). lia. }
+    rewrite Hun. cbn [bind].
+    eexists. split; [reflexivity|]. cbn [cells nbuckets mask entries].
+    split; [exact Hv3|]. split; [unfold Geom; cbn [nbuckets mask]; split; [lia|reflexivity]|]. split; [reflexivity|].
+    rewrite HP3. exact HP2.
   Qed.
 End Proofs.
